@@ -242,6 +242,44 @@ def run(ctx):
             ctx.nontriv(tuple(sorted((k, str(v)) for k, v in case.items())))
         if n in (3, 300):
             ctx.sample({"request": case, "view_keys": sorted(ref)[:8]})
+    # bodies under unusual content types: declared charsets, byte-order marks, other encodings, parameter spellings
+    mp = b'--BB\r\nContent-Disposition: form-data; name="f"\r\n\r\ncaf\xe9\r\n--BB--\r\n'
+    EXTRA = [("application/json; charset=latin-1", b'{"name": "caf\xe9"}'), ("application/json; charset=ascii", '{"n": "\u00e9"}'.encode()),
+             ("application/json; charset=klingon", b'{"a": 1}'), ("application/json", b'\xef\xbb\xbf{"a": 1}'),
+             ("application/json", '{"a": "\u00e9"}'.encode("utf-16-le")), ("application/json", '{"a": 1}'.encode("utf-16")),
+             ("application/json; charset=utf-16", '{"a": "\u00e9"}'.encode("utf-16")), ("application/json; charset=utf-8-sig", b'\xef\xbb\xbf{"a": 1}'),
+             ("APPLICATION/JSON", b'{"a": 1}'), ("application/json ; charset = utf-8", b'{"a": 1}'), ('application/json; charset="latin-1"', b'{"a": "\xe9"}'),
+             ("application/json; charset=", b'{"a": 1}'), ("application/problem+json", b'{"a": 1}'),
+             ("application/x-www-form-urlencoded; charset=latin-1", b"a=caf\xe9"), ("application/x-www-form-urlencoded; charset=utf-8", b"a=caf\xe9"),
+             ("application/x-www-form-urlencoded; charset=nope", b"a=1"), ("application/x-www-form-urlencoded", b"a=caf\xc3\xa9&b=%E9"),
+             ("application/x-www-form-urlencoded; charset=utf-16", "a=1".encode("utf-16")),
+             ("multipart/form-data; boundary=BB; charset=latin-1", mp), ("multipart/form-data; boundary=BB", mp), ("multipart/form-data; charset=utf-8; boundary=BB", mp),
+             ('multipart/form-data; boundary="BB"', mp), ("multipart/form-data", mp), ("text/plain", b"x"), ("", b'{"a": 1}')]
+    for ct, body in EXTRA:
+        obs = {}
+        cuts = [[body], [body[i:i + 1] for i in range(len(body))]]
+        for form_first in (False, True):
+            use = views_ff if form_first else views
+            for ci, chunks in enumerate(cuts):
+                for iface in ("wsgi", "asgi"):
+                    req = servers.Req(method="POST", path="/", headers=([("Content-Type", ct)] if ct else []) + [("Content-Length", str(len(body)))], chunks=chunks)
+                    r = servers.wsgi_call(use[iface], req) if iface == "wsgi" else servers.asgi_call(use[iface], req)
+                    ctx.count()
+                    try:
+                        o = json.loads(r.body) if r.exc is None else {"exc": _exc(r.exc)}
+                    except ValueError:
+                        o = {"undecodable": r.body[:80].decode("latin-1")}
+                    obs[(iface, ci, form_first)] = {k: o.get(k) for k in ("body", "json", "form", "exc", "undecodable") if k in o}
+        for ff in (False, True):
+            ref = obs[("wsgi", 0, ff)]
+            for key, o in obs.items():
+                if key[2] == ff and o != ref:
+                    diff = sorted(k for k in set(o) | set(ref) if o.get(k) != ref.get(k))
+                    what = ("request view depends on how the body is chunked (%s)" % diff) if key[0] == "wsgi" else "WSGI and ASGI request views differ in %s" % diff
+                    ctx.violation({"content_type": ct, "body": body.decode("latin-1"), "compared": list(key)}, {k: ref.get(k) for k in diff},
+                                  {k: o.get(k) for k in diff}, what)
+                    break
+        ctx.nontriv(("ctype", ct, body))
     # response recipes and bundled applications
     env = recipes.Env(tlc.scratch())
     try:
